@@ -136,8 +136,11 @@ def lemmas(terms):
                 x, y = t.arg(0), t.arg(1)
                 out.append(z3.Not(z3.fpIsNaN(t)))
                 out.append(z3.Implies(z3.And(x >= -TWO53, x <= TWO53, y != 0), z3.Not(z3.fpIsInf(t))))
-                out.append(z3.Implies(z3.And(x >= 0, y > 0), z3.fpIsPositive(t)))
-                out.append(z3.Implies(z3.And(x <= 0, y < 0), z3.fpIsPositive(t)))
+                out.append(z3.Implies(z3.And(x > 0, y > 0), z3.And(z3.fpIsPositive(t), z3.Not(z3.fpIsZero(t)))))
+                out.append(z3.Implies(z3.And(x < 0, y < 0), z3.And(z3.fpIsPositive(t), z3.Not(z3.fpIsZero(t)))))
+                out.append(z3.Implies(z3.And(x > 0, y < 0), z3.And(z3.fpIsNegative(t), z3.Not(z3.fpIsZero(t)))))
+                out.append(z3.Implies(z3.And(x < 0, y > 0), z3.And(z3.fpIsNegative(t), z3.Not(z3.fpIsZero(t)))))
+                out.append(z3.Implies(x == 0, z3.fpIsZero(t)))
                 for kx in range(-3, 4):
                     for ky in (-3, -2, -1, 1, 2, 3):
                         out.append(z3.Implies(z3.And(x == kx, y == ky), t == z3.FPVal(kx / ky, P.FP)))
@@ -205,8 +208,8 @@ class Decider:
     def decide_op(self, op, A, B, kind):
         """kind: 'bin' | 'cmp' | 'unary'"""
         rep, I = self.rep, self.I
-        mixed_float = ("Float" in (A, B, MUT_OF.get(A), MUT_OF.get(B))) and not (
-            (A in ("Float", "FloatMut")) and (B in ("Float", "FloatMut", None)))
+        mixed_float = ("Float" in (A, B, MUT_OF.get(A), MUT_OF.get(B)) or "float" in (A, B)) and not (
+            (A in ("Float", "FloatMut", "float")) and (B in ("Float", "FloatMut", "float", None)))
         bounded = mixed_float or op in ("truediv", "pow")
         a, ca, ta = self.mk.value(A, "a", bounded)
         if B:
@@ -251,7 +254,8 @@ class Decider:
         found = {}
         unknown = []
         reach = 0
-        decl, decl_src = (declared(op, MUT_OF.get(A, A), MUT_OF.get(B, B) if B else None) if kind != "cmp" else ("bool", None))
+        plain = {"int": "Int", "float": "Float"}
+        decl, decl_src = (declared(op, plain.get(A, MUT_OF.get(A, A)), plain.get(B, MUT_OF.get(B, B)) if B else None) if kind != "cmp" else ("bool", None))
         is_mut = A in MUT_OF
 
         small = [z3.And(t >= -3, t <= 3) for t in (ta, tb) if t is not None and z3.is_int(t)]
@@ -310,6 +314,8 @@ class Decider:
                         continue
                     found.setdefault("raises", ("%s%s raised where the builtin operation %s" % (e.cls, (": " + e.msg) if e.msg else "",
                                                 "returns a value" if outr[0] == "value" else "raises " + outr[1].cls), m2))
+                    if outr[0] == "value":
+                        found.setdefault("value", ("%s is raised where the builtin returns a value" % e.cls, m2))
                     continue
                 if outr[0] == "raise":
                     found.setdefault("value", ("a value is returned where the builtin operation raises " + outr[1].cls, m2))
@@ -377,6 +383,182 @@ class Decider:
         return "%s %s" % (PYSYM[op], lit(A, mv["a"]))
 
 
+METHODS = [
+    # (receiver class, method, argument spec, what must hold afterwards)
+    ("Int", "succ", [], "ret == a + 1"), ("Int", "pred", [], "ret == a - 1"),
+    ("Nat", "succ", [], "ret == a + 1"), ("Nat", "pred", [], "ret == a - 1"),
+    ("Nat", "saturating_sub", ["Nat"], "ret == max(a - b, 0)"),
+    ("IntMut", "inc", ["Int"], "cell == a + b"), ("IntMut", "dec", ["Int"], "cell == a - b"),
+    ("IntMut", "inc", [], "cell == a + 1"), ("IntMut", "dec", [], "cell == a - 1"),
+    ("NatMut", "inc", ["Nat"], "cell == a + b"), ("NatMut", "dec", ["Nat"], "cell == a - b"), ("NatMut", "dec", [], "cell == a - 1"),
+    ("IntMut", "update", ["fn->Int"], "cell == r"), ("NatMut", "update", ["fn->Int"], "cell == r"),
+    ("FloatMut", "update", ["fn->Float"], "cell == r"),
+    ("IntMut", "succ", [], "ret == a + 1"), ("IntMut", "pred", [], "ret == a - 1"),
+    ("IntMut", "copy", [], "ret == a"), ("NatMut", "copy", [], "ret == a"), ("FloatMut", "copy", [], "ret == a"),
+]
+
+
+def decide_methods(D, rep):
+    """state-after-call obligations for the methods of the wrappers (role key <Class>.<method>(<args>)/<assertion>):
+    the result / the cell content is what the name says, a Nat / Nat! never holds a negative value afterwards, and a call that
+    raises leaves the cell unchanged."""
+    I = D.I
+    for cls, meth, spec, post in METHODS:
+        a, ca, ta = D.mk.value(cls, "a")
+        args, assume, tb, tr = [], list(ca), None, None
+        for sp in spec:
+            if sp.startswith("fn->"):
+                rc = sp[4:]
+                rv, _c, tr = D.mk.value(rc, "r")      # the callback's result: any value of its class (no Nat promise)
+                args.append(P.VOpaqueFn(lambda _args, rv=rv: rv))
+            else:
+                bv, cb, tb = D.mk.value(sp, "b")
+                assume += cb
+                args.append(bv)
+        role = "%s.%s(%s)" % (cls, meth, ",".join(spec))
+        base = dict(engine="py2smt (ast -> z3 %s)" % z3.get_version_string(), functions=["%s.%s" % (cls, meth)], shape=role,
+                    symbolic=["a: receiver value"] + (["b: argument value"] if tb is not None else []) + (["r: callback result (any value of its class)"] if tr is not None else []),
+                    bounds={}, solver="z3")
+        before = a.attrs.get("value") if isinstance(a, P.VObj) else None
+
+        def thunk():
+            if isinstance(a, P.VObj):
+                a.attrs["value"] = before     # fresh state for every explored path
+            return I.call(I.getattr_(a, meth), args)
+        q0, s0 = I.queries, I.solver_s
+        try:
+            I.base_extra = []
+            # cell states are read inside the exploration: record (outcome, cell) per path
+            results = []
+
+            def run_and_snapshot():
+                try:
+                    v = thunk()
+                    results.append(("value", v, a.attrs.get("value") if isinstance(a, P.VObj) else None))
+                    return v
+                except P.PyRaise as e:
+                    results.append(("raise", e, a.attrs.get("value") if isinstance(a, P.VObj) else None))
+                    raise
+            results.clear()
+            paths = I.explore(run_and_snapshot, assume)
+        except (P.Unsupported, RecursionError) as e:
+            rep.add(Obligation(base, key=role + "/*", verdict=INCONCLUSIVE, reason="unsupported-construct: %s" % e))
+            continue
+        found = {}
+        reach = 0
+        # explore() appends one result per *completed* path in order; aborted paths append too, so align by re-walking
+        snaps = [r for r in results]
+        if len(snaps) != len(paths):
+            rep.add(Obligation(base, key=role + "/*", verdict=INCONCLUSIVE, reason="path bookkeeping mismatch (%d vs %d)" % (len(snaps), len(paths))))
+            continue
+        for (pc, outc, _), (kind, val, cell) in zip(paths, snaps):
+            r, m = D.sat(assume + pc)
+            if r != "sat":
+                continue
+            reach += 1
+            if outc[0] == "raise":
+                if outc[1].cls not in ("ValueError",) or cls != "NatMut":
+                    found.setdefault("raises", ("%s raised" % outc[1].cls, m))
+                elif cell is not before and cell is not None:
+                    r2, m2 = D.sat(assume + pc + [underlying(cell).t != ta])
+                    if r2 == "sat":
+                        found.setdefault("state", ("the cell changed although the call raised", m2))
+                continue
+            want_ret = None
+            if post.startswith("ret =="):
+                rv = underlying(val)
+                exp = {"ret == a + 1": ta + 1, "ret == a - 1": ta - 1, "ret == a": ta,
+                       "ret == max(a - b, 0)": (z3.If(ta - tb >= 0, ta - tb, 0) if tb is not None else None)}[post]
+                if not isinstance(rv, (P.VInt, P.VFloat)):
+                    found.setdefault("value", ("result is %r" % (rv,), m))
+                else:
+                    r2, m2 = D.sat(assume + pc + [rv.t != exp])
+                    if r2 == "sat":
+                        found.setdefault("value", ("result differs from %s" % post[7:], m2))
+                if cls in ("Nat", "NatMut") and isinstance(val, P.VInt) and I.issub(val.cls, "Nat"):
+                    r2, m2 = D.sat(assume + pc + [val.t < 0])
+                    if r2 == "sat":
+                        found.setdefault("nat-nonneg", ("a negative %s is returned" % val.cls, m2))
+            else:
+                cv = underlying(cell) if cell is not None else None
+                exp = {"cell == a + b": (ta + tb) if tb is not None else None, "cell == a - b": (ta - tb) if tb is not None else None,
+                       "cell == a + 1": ta + 1, "cell == a - 1": ta - 1, "cell == r": tr}[post]
+                if not isinstance(cv, (P.VInt, P.VFloat)):
+                    found.setdefault("state", ("the cell holds %r" % (cv,), m))
+                else:
+                    r2, m2 = D.sat(assume + pc + [cv.t != exp])
+                    if r2 == "sat":
+                        found.setdefault("state", ("the cell content differs from %s" % post[8:], m2))
+                if cls == "NatMut" and isinstance(cv, P.VInt):
+                    r2, m2 = D.sat(assume + pc + [cv.t < 0])
+                    if r2 == "sat":
+                        found.setdefault("nat-nonneg", ("the Nat! cell holds a negative value afterwards", m2))
+        qn, qs = I.queries - q0, round(I.solver_s - s0, 3)
+        if reach == 0:
+            rep.add(Obligation(base, key=role + "/*", verdict=BROKEN, reason="no path reachable"))
+            continue
+        names = ["value" if post.startswith("ret") else "state", "raises"] + (["nat-nonneg"] if cls in ("Nat", "NatMut") else [])
+        for nme in names:
+            if nme in found:
+                why, m = found[nme]
+                vals = {k: (m.eval(t, model_completion=True).as_long() if z3.is_int(t) else str(m.eval(t, model_completion=True)))
+                        for k, t in (("a", ta), ("b", tb), ("r", tr)) if t is not None}
+                o = Obligation(base, key="%s/%s" % (role, nme), verdict=VIOLATED, model=vals, queries=qn, solver_s=qs,
+                               reason="%s, e.g. %s" % (why, vals))
+                o["method_replay"] = (cls, meth, spec, vals, nme, post)
+                rep.add(o)
+            else:
+                rep.add(Obligation(base, key="%s/%s" % (role, nme), verdict=HELD, queries=qn, solver_s=qs,
+                                   reason={"value": "the result is " + post[7:], "state": "afterwards " + post, "raises": "no exception except NatMut's documented ValueError on a negative value",
+                                           "nat-nonneg": "no negative Nat / Nat! afterwards"}[nme], vacuity={"paths_reachable": reach}))
+
+
+METHOD_REPLAY_PY = r'''
+import sys, json
+sys.path.insert(0, sys.argv[1])
+from _erg_int import Int, IntMut
+from _erg_nat import Nat, NatMut
+from _erg_float import Float, FloatMut
+CLS = {"Int": Int, "Nat": Nat, "Float": Float, "IntMut": IntMut, "NatMut": NatMut, "FloatMut": FloatMut}
+def mk(c, v):
+    if c.endswith("Mut"): return CLS[c](CLS[c[:-3]](v))
+    return CLS[c](v)
+def under(x):
+    while hasattr(x, "value") and not isinstance(x, (int, float)): x = x.value
+    return x
+out = []
+for case in json.load(open(sys.argv[2])):
+    cls, meth, spec, vals, nme, post = case["expr"]
+    res = {"key": case["key"]}
+    try:
+        a = mk(cls, vals["a"]); args = []
+        for sp in spec:
+            if sp.startswith("fn->"):
+                r = CLS[sp[4:]](vals["r"]) if sp[4:] != "Float" else Float(float(vals["r"]))
+                args.append(lambda _x, r=r: r)
+            else:
+                args.append(mk(sp, vals["b"]))
+        before = under(a)
+        try:
+            ret = getattr(a, meth)(*args); exc = None
+        except Exception as e:
+            ret = None; exc = type(e).__name__
+        after = under(a)
+        res.update(ret=repr(ret), exc=exc, before=repr(before), after=repr(after))
+        A = vals["a"]; B = vals.get("b"); R = vals.get("r")
+        exp = {"ret == a + 1": lambda: A + 1, "ret == a - 1": lambda: A - 1, "ret == a": lambda: A, "ret == max(a - b, 0)": lambda: max(A - B, 0),
+               "cell == a + b": lambda: A + B, "cell == a - b": lambda: A - B, "cell == a + 1": lambda: A + 1, "cell == a - 1": lambda: A - 1, "cell == r": lambda: R}[post]()
+        if nme == "raises": res["reproduced"] = exc is not None and not (cls == "NatMut" and exc == "ValueError")
+        elif nme == "value": res["reproduced"] = exc is None and under(ret) != exp
+        elif nme == "state": res["reproduced"] = (exc is None and after != exp) or (exc is not None and after != before)
+        elif nme == "nat-nonneg": res["reproduced"] = exc is None and ((isinstance(a, NatMut) and after < 0) or (isinstance(ret, (Nat,)) and ret < 0))
+    except Exception as e:
+        res["error"] = repr(e); res["reproduced"] = None
+    out.append(res)
+print("PYRT-REPLAY " + json.dumps(out))
+'''
+
+
 REPLAY_PY = r'''
 import sys, json, struct, operator
 sys.path.insert(0, sys.argv[1])
@@ -386,7 +568,7 @@ from _erg_float import Float, FloatMut
 from _erg_bool import Bool, BoolMut
 CLS = {"Int": Int, "Nat": Nat, "Float": Float, "Bool": Bool, "IntMut": IntMut, "NatMut": NatMut, "FloatMut": FloatMut, "BoolMut": BoolMut,
        "int": int, "float": float, "bool": bool}
-BASE = {"Int": int, "Nat": int, "Bool": bool, "Float": float, "IntMut": int, "NatMut": int, "FloatMut": float, "BoolMut": bool}
+BASE = {"Int": int, "Nat": int, "Bool": bool, "Float": float, "IntMut": int, "NatMut": int, "FloatMut": float, "BoolMut": bool, "int": int, "float": float, "bool": bool}
 OPS = {"add": operator.add, "sub": operator.sub, "mul": operator.mul, "floordiv": operator.floordiv, "truediv": operator.truediv,
        "mod": operator.mod, "pow": operator.pow, "eq": operator.eq, "ne": operator.ne, "lt": operator.lt, "le": operator.le,
        "gt": operator.gt, "ge": operator.ge, "neg": operator.neg, "pos": operator.pos, "abs": abs}
@@ -411,8 +593,35 @@ def same(x, y):
     if isinstance(x, float) and isinstance(y, float):
         return struct.pack("<d", x) == struct.pack("<d", y) or (x != x and y != y)
     return type(x) == type(y) and x == y
+def describe(x):
+    d = {"type": type(x).__name__}
+    if hasattr(x, "value") and not isinstance(x, (int, float)):
+        d["inner_type"] = type(x.value).__name__
+    u = under(x)
+    if isinstance(u, bool): d["value"] = int(u); d["kind"] = "int"
+    elif isinstance(u, int): d["value"] = u; d["kind"] = "int"
+    elif isinstance(u, float): d["value"] = struct.unpack("<Q", struct.pack("<d", u))[0]; d["kind"] = "float"; d["nan"] = (u != u)
+    else: d["kind"] = "other"
+    return d
 out = []
-for case in json.load(open(sys.argv[2])):
+cases = json.load(open(sys.argv[2]))
+if len(sys.argv) > 3 and sys.argv[3] == "eval":
+    for case in cases:
+        op, A, B, mv = case["expr"]
+        res = {"key": case["key"]}
+        try:
+            a = mk(A, mv["a"]); b = mk(B, mv["b"]) if B else None
+            args = (a, b) if B else (a,)
+            try:
+                res["result"] = describe(OPS[op](*args)); res["exc"] = None
+            except Exception as e:
+                res["exc"] = type(e).__name__
+        except Exception as e:
+            res["error"] = repr(e)
+        out.append(res)
+    print("PYRT-REPLAY " + json.dumps(out))
+    sys.exit(0)
+for case in cases:
     op, kind, A, B, mv, cls, decl = case["expr"]
     res = {"key": case["key"]}
     try:
@@ -431,7 +640,7 @@ for case in json.load(open(sys.argv[2])):
         if cls == "raises":
             res["reproduced"] = gexc is not None and gexc != wexc
         elif cls == "value":
-            res["reproduced"] = (gexc is None and wexc is not None) or (gexc is None and wexc is None and not same(under(got), want))
+            res["reproduced"] = (gexc is None and wexc is not None) or (gexc is not None and wexc is None) or (gexc is None and wexc is None and not same(under(got), want))
         elif cls == "class":
             if kind == "cmp":
                 res["reproduced"] = gexc is None and not isinstance(got, bool)
@@ -503,8 +712,179 @@ def replay(rep, scratch, props_filter=None):
                 with open(rp, "w") as f:
                     json.dump({"key": o["key"], "expr": list(o["replay_expr"]), "native": o["native_replay"], "reason": o["reason"]}, f, indent=1, default=str)
                 o["replay"] = rp
+    mtodo = [o for o in rep.obls if o.get("verdict") == VIOLATED and "method_replay" in o and (all_known or not rep.known.lookup(rep.prop, o["key"]))]
+    if mtodo:
+        d = os.path.join(scratch.root, "pyreplay_m")
+        os.makedirs(d, exist_ok=True)
+        with open(os.path.join(d, "replay.py"), "w") as f:
+            f.write(METHOD_REPLAY_PY)
+        with open(os.path.join(d, "cases.json"), "w") as f:
+            json.dump([{"key": o["key"], "expr": list(o["method_replay"])} for o in mtodo], f)
+        rc, out, _ = sh([pythons()[0], os.path.join(d, "replay.py"), scratch.path(CORE), os.path.join(d, "cases.json")], timeout=300)
+        m = re.search(r"PYRT-REPLAY (.*)", out)
+        res = {r["key"]: r for r in json.loads(m.group(1))} if m else {}
+        for o in mtodo:
+            r = res.get(o["key"])
+            rep.replayed += 1
+            o["native_replay"] = r
+            if not r or not r.get("reproduced"):
+                o["verdict"] = BROKEN
+                o["reason"] = "counterexample did not reproduce with the real modules (%s): %s" % (r, o.get("reason", ""))
+            else:
+                rd = os.path.join(VERIF, "replays", rep.prop)
+                os.makedirs(rd, exist_ok=True)
+                import hashlib
+                rp = os.path.join(rd, hashlib.sha256(o["key"].encode()).hexdigest()[:10] + ".json")
+                with open(rp, "w") as f:
+                    json.dump({"key": o["key"], "expr": list(o["method_replay"]), "native": r, "reason": o["reason"]}, f, indent=1, default=str)
+                o["replay"] = rp
     for o in rep.obls:
         o.pop("replay_expr", None)
+        o.pop("method_replay", None)
+
+
+VAL_INTS = [-3, -1, 0, 1, 2, 3]
+VAL_FLOATS = [0.0, -0.0, 1.0, -1.5, 2.5, float("inf"), float("nan")]
+
+
+def f64_bits(f):
+    import struct
+    return struct.unpack("<Q", struct.pack("<d", f))[0]
+
+
+def validate(rep, D, scratch, ps, seed, per_pair):
+    """Translator validation (Serval-style): concrete operand vectors go through the real modules (one python3.11 process)
+    and through the interpreter with the inputs fixed; class of the result, exception class and — where the primitive is
+    interpreted or pinned by a lemma — the value must agree.  Any disagreement is an ENCODING-ERROR (exit 2)."""
+    import random
+    rnd = random.Random(seed)
+    cases = []
+    for op, A, B, kind in ps:
+        for k in range(per_pair):
+            mv = {}
+            for nm, cls in (("a", A), ("b", B)):
+                if cls is None:
+                    mv[nm] = None
+                    continue
+                base = {"float": "Float", "int": "Int"}.get(cls, MUT_OF.get(cls, cls))
+                if base == "Float":
+                    mv[nm] = {"f64_bits": f64_bits(rnd.choice(VAL_FLOATS))}
+                elif base == "Nat":
+                    mv[nm] = rnd.choice([v for v in VAL_INTS if v >= 0])
+                elif base == "Bool":
+                    mv[nm] = rnd.choice([0, 1])
+                else:
+                    mv[nm] = rnd.choice(VAL_INTS)
+            cases.append({"key": "%s/(%s%s)#%d" % (op, A, "," + B if B else "", k), "expr": [op, A, B, mv], "kind": kind})
+    d = os.path.join(scratch.root, "pyvalidate")
+    os.makedirs(d, exist_ok=True)
+    with open(os.path.join(d, "replay.py"), "w") as f:
+        f.write(REPLAY_PY)
+    with open(os.path.join(d, "cases.json"), "w") as f:
+        json.dump(cases, f)
+    rc, out, _ = sh([pythons()[0], os.path.join(d, "replay.py"), scratch.path(CORE), os.path.join(d, "cases.json"), "eval"], timeout=600)
+    m = re.search(r"PYRT-REPLAY (.*)", out)
+    if not m:
+        rep.add(Obligation(key="translator-validation/*", engine="py2smt vs python3.11", verdict=BROKEN, reason="native run failed: " + out[-400:]))
+        return
+    native = {r["key"]: r for r in json.loads(m.group(1))}
+    import ast as _ast
+    I = D.I
+    bad = []
+    n_ok = 0
+    for c in cases:
+        op, A, B, mv = c["expr"]
+        nat = native.get(c["key"])
+        if not nat or "error" in nat:
+            bad.append((c["key"], "native error %s" % (nat,)))
+            continue
+
+        def conc(cls, v):
+            base = MUT_OF.get(cls, cls)
+            if base in ("Float", "float"):
+                inner = P.VFloat(base, z3.fpBVToFP(z3.BitVecVal(v["f64_bits"], 64), P.FP))
+            else:
+                inner = P.VInt(base, z3.IntVal(v))
+            if cls in MUT_OF:
+                o = P.VObj(cls)
+                o.attrs["value"] = inner
+                return o
+            return inner
+        a = conc(A, mv["a"])
+        b = conc(B, mv["b"]) if B else None
+        if c["kind"] == "bin":
+            th = lambda: I.binop(a, b, op)
+        elif c["kind"] == "cmp":
+            node = {"eq": _ast.Eq, "ne": _ast.NotEq, "lt": _ast.Lt, "le": _ast.LtE, "gt": _ast.Gt, "ge": _ast.GtE}[op]
+            th = lambda: I.compare(a, b, node)
+        elif op == "abs":
+            th = lambda: P.g_abs(I, [a])
+        else:
+            node = {"neg": _ast.USub, "pos": _ast.UAdd}[op]
+            th = lambda: I.unary(a, node)
+        try:
+            I.base_extra = []
+            paths = I.explore(th, [])
+        except (P.Unsupported, RecursionError) as e:
+            continue    # reported as inconclusive by the symbolic run of the same pair
+        # with concrete inputs exactly one path must be feasible under the lemmas
+        feas = []
+        for pc, outc, _ in paths:
+            r, mdl = D.sat(pc)
+            if r == "sat":
+                feas.append((pc, outc))
+        if len(feas) != 1:
+            # an uninterpreted primitive left a branch open (e.g. NaN-ness of py_float_pow): not comparable
+            continue
+        pc, outc = feas[0]
+        if outc[0] == "raise":
+            if nat.get("exc") != outc[1].cls:
+                bad.append((c["key"], "interpreter raises %s, real modules: %s" % (outc[1].cls, nat)))
+            else:
+                n_ok += 1
+            continue
+        if nat.get("exc"):
+            bad.append((c["key"], "interpreter returns %r, real modules raise %s" % (outc[1], nat["exc"])))
+            continue
+        v = outc[1]
+        res = nat["result"]
+        tname = "bool" if isinstance(v, P.VBool) else getattr(v, "cls", type(v).__name__)
+        if tname != res["type"]:
+            bad.append((c["key"], "interpreter result class %s, real modules %s" % (tname, res["type"])))
+            continue
+        inner = v.attrs.get("value") if isinstance(v, P.VObj) else v
+        if isinstance(v, P.VObj) and "inner_type" in res and getattr(inner, "cls", None) != res["inner_type"]:
+            bad.append((c["key"], "interpreter wraps a %s, real modules a %s" % (getattr(inner, "cls", None), res["inner_type"])))
+            continue
+        if isinstance(inner, P.VInt) and res["kind"] == "int":
+            r, _m = D.sat(pc + [inner.t != res["value"]])
+            r2, _m2 = D.sat(pc + [inner.t == res["value"]])
+            if r == "unsat" and r2 == "sat":
+                n_ok += 1
+            elif r2 == "unsat":
+                bad.append((c["key"], "interpreter value %s, real modules %s" % (z3.simplify(inner.t), res["value"])))
+            else:
+                n_ok += 1     # value left open by an uninterpreted primitive; class and kind agreed
+        elif isinstance(inner, P.VFloat) and res["kind"] == "float":
+            want = z3.fpBVToFP(z3.BitVecVal(res["value"], 64), P.FP)
+            cond = z3.fpIsNaN(inner.t) if res.get("nan") else (inner.t == want)
+            r2, _m2 = D.sat(pc + [cond])
+            if r2 == "unsat":
+                bad.append((c["key"], "interpreter float value differs from the real modules' %r" % (res,)))
+            else:
+                n_ok += 1
+        elif (isinstance(inner, P.VInt) and res["kind"] != "int") or (isinstance(inner, P.VFloat) and res["kind"] != "float"):
+            bad.append((c["key"], "numeric kind differs: %r vs %r" % (inner, res)))
+        else:
+            n_ok += 1
+    rep.replayed += n_ok
+    rep.extra["translator_validation"] = {"vectors": len(cases), "agreed": n_ok, "disagreed": len(bad)}
+    if bad:
+        for k, why in bad[:10]:
+            rep.add(Obligation(key="translator-validation/" + k, engine="py2smt vs python3.11 on concrete vectors", verdict=BROKEN, reason=why))
+    else:
+        rep.add(Obligation(key="translator-validation/all", engine="py2smt vs python3.11 on concrete vectors", verdict=HELD, nontrivial=False,
+                           reason="%d concrete vectors: the interpreter and the real modules agree on exception class, result class and value" % n_ok))
 
 
 def pairs(tier):
@@ -513,8 +893,8 @@ def pairs(tier):
     for A in imm:
         for B in imm:
             for op in BIN_OPS:
-                if op == "pow" and not (B in ("Nat", "Bool") or "Float" in (A, B)):
-                    continue
+                if op == "pow" and not (B in ("Nat", "Bool")) or (op == "pow" and "Float" in (A, B)):
+                    continue      # float ** (complex results, OverflowError) and negative integer exponents have no exact reference here
                 out.append((op, A, B, "bin"))
             for op in CMP_OPS:
                 out.append((op, A, B, "cmp"))
@@ -524,15 +904,22 @@ def pairs(tier):
     for A, Bs in muts:
         for B in Bs:
             for op in BIN_OPS:
-                if op == "pow" and MUT_OF.get(B, B) not in ("Nat",) and "Float" not in A:
-                    continue
-                if op == "mod" and tier == "quick":
-                    pass
+                if op in ("pow", "mod"):
+                    continue      # `%` and `**` with a mutable cell on the left are rejected by the type checker (see run_for)
                 out.append((op, A, B, "bin"))
             for op in CMP_OPS:
                 out.append((op, A, B, "cmp"))
         out.append(("neg", A, None, "unary"))
         out.append(("pos", A, None, "unary"))
+    # a plain Python value on the left (literals, results of Python APIs): the wrappers' reflected methods
+    for A, Bs in (("int", ["Int", "Nat", "Bool"]), ("float", ["Float"])):
+        for B in Bs:
+            for op in BIN_OPS:
+                if op == "pow" and (B not in ("Nat", "Bool") or A == "float"):
+                    continue
+                out.append((op, A, B, "bin"))
+            for op in ("eq", "lt", "ge"):
+                out.append((op, A, B, "cmp"))
     # reflected: immutable on the left, mutable on the right
     for A, B in (("Int", "IntMut"), ("Nat", "NatMut"), ("Float", "FloatMut"), ("Int", "NatMut")):
         for op in ("add", "sub", "mul"):
@@ -552,8 +939,14 @@ def run_for(prop, tier, seed, only, classes, explanation):
             ps = [p for p in ps if only in "%s/(%s%s)" % (p[0], p[1], "," + p[2] if p[2] else "")]
         for op, A, B, kind in ps:
             D.decide_op(op, A, B, kind)
+        if not only or "." in only:
+            decide_methods(D, rep)
+            if only and "." in only:
+                rep.obls = [o for o in rep.obls if only in o["key"]]
+        validate(rep, D, s, ps, seed, 2 if tier == "quick" else 6)
         # keep only this property's assertion classes
-        rep.obls = [o for o in rep.obls if o["key"].rsplit("/", 1)[-1] in classes or o["key"].endswith("/*")]
+        rep.obls = [o for o in rep.obls if o["key"].rsplit("/", 1)[-1] in classes or o["key"].endswith("/*") or o["key"].startswith("translator-validation/")
+                    or ("." in o["key"].split("/")[0] and (o["key"].rsplit("/", 1)[-1] in (("value", "state", "nat-nonneg") if prop == "C26" else ("raises",))))]
         if prop == "C02":
             # C02 speaks about programs the type checker accepts: `%` and `**` with a mutable cell on the left are
             # rejected by the checker ("the type of `%`::lhs is mismatched"; confirmed with the built compiler), so those
